@@ -391,6 +391,7 @@ func decodeMultipart(body []byte, boundary string) (*wireReq, map[string]FilePar
 	if err != nil {
 		return nil, nil, err
 	}
+	defer form.RemoveAll() // parts above the memory budget are spooled to files
 	ops := ""
 	if v := form.Value["operations"]; len(v) > 0 {
 		ops = v[0]
